@@ -1491,7 +1491,10 @@ class IRGenerator:
                             *loc)
                 else:
                     # Referring to a field that's a member of this type
-                    assert type_context is not None
+                    if type_context is None:
+                        raise InvalidSpec(
+                            'Bad doc reference to field %s: outside of a struct or union '
+                            'the type must be named (Type.field).' % quote(val), *loc)
                     if not any(field.name == val
                                for field in type_context.all_fields):
                         raise InvalidSpec(
